@@ -31,6 +31,7 @@
    them (satisfiable: C04_assumed_law_is_satisfiable). *)
 From TS Require Import model.Base model.FsStream model.Chunk model.Batch model.ReadDamage.
 From TS Require Import proofs.ChunkProofs proofs.BatchProofs proofs.ReadDamageProofs.
+From TS Require Import model.ReadPathPrims gen.StreamGen gen.ReadPathGen model.ReadPathGenObs proofs.ReadPathInst.
 
 (* ------------------------------------------------------------------ consumers *)
 (* tensor_from_memoryview (empty-buffer branch, torch.frombuffer, reshape) accepts a buffer exactly when its length is
@@ -287,3 +288,179 @@ Example C04_ex_read_plan :
           mkLeaf 0 (Some (28, 36)) (RdTensor 4 [2]); mkLeaf 0 (Some (36, 40)) (RdTensor 4 [1]);
           mkLeaf 2 None (RdTensor 2 [4]); mkLeaf 3 None RdLoad].
 Proof. vm_compute. reflexivity. Qed.
+
+(* ================================================================== the same statements about the code as it is NOW *)
+(* gen/ReadPathGen.v is regenerated on every run from the source tree by translator/gen_readpath.py (Python ast -> Gallina,
+   fail closed): tensor_from_memoryview, torch_load_from_bytes, TensorBufferConsumer.deserialize_tensor / consume_buffer,
+   ShardedTensorBufferConsumer / ObjectBufferConsumer.consume_buffer, BatchedBufferConsumer.consume_buffer (slices, gather,
+   result retrieval), batch_read_requests (statement by statement), the prepare_read functions of the four io preparers
+   (which location / byte range / entry each consumer gets), _ReadPipeline.read_buffer / consume_buffer and the result
+   retrieval of execute_read_reqs; FSStoragePlugin.read is gen/StreamGen.v [g_fs_read] (C20's translator).
+   model/ReadPathGenObs.v wires these into one run [g_restore] and one planner [g_read_plan]; proofs/ReadPathInst.v shows
+   that each generated definition equals the hand-written one the theorems above speak about.  A read request is
+   [greq] = (path, byte range, consumer object); [g_leaf_of] is the leaf it stands for.  If the source changes
+   behaviour, the generated terms change and the lemmas used below stop checking. *)
+
+(* tensor_from_memoryview as translated: accepts a buffer exactly when its length is esize * numel *)
+Theorem C04_generated_tensor_consumer_accepts_exact_length_only : forall esize shape (buf v : bytes),
+  0 < esize -> 0 <= prodZ shape ->
+  ((exists t, g_tensor_from_memoryview esize shape buf = Some t /\ tn_bytes t = v)
+   <-> blen buf = esize * prodZ shape /\ v = buf).
+Proof. exact g_tfm_some. Qed.
+Print Assumptions C04_generated_tensor_consumer_accepts_exact_length_only.
+
+(* BatchedBufferConsumer.consume_buffer as translated raises exactly when some sub-consumer raises on the Python slice
+   buf[lo:hi] of its own key: the results of the sub-consumer tasks are retrieved *)
+Theorem C04_generated_batched_consumer_surfaces_errors :
+  forall (V : Type) (consume : Z * bytes -> option V) (subs : list ((Z * Z) * Z)) (buf : bytes),
+    g_batched_results_retrieved = true /\
+    (g_batched_consume consume subs buf = None
+     <-> exists sb, In sb subs /\ consume (snd sb, pyslice buf (fst (fst sb)) (snd (fst sb))) = None).
+Proof. intros V consume subs buf. split; [exact g_batched_results_retrieved_true | apply g_batched_consume_none]. Qed.
+Print Assumptions C04_generated_batched_consumer_surfaces_errors.
+
+(* execute_read_reqs as translated (results of the read tasks and of the consuming tasks retrieved): the call raises
+   exactly when the storage read or the consumer of SOME request raises *)
+Theorem C04_generated_pipeline_failure_raises :
+  forall (R V : Type) (rd : R -> option bytes) (cb : R -> bytes -> option V) (reqs : list R),
+    (g_exec_io_result_retrieved = true /\ g_exec_consume_result_retrieved = true) /\
+    (g_execute_read_reqs rd cb reqs = None
+     <-> exists r, In r reqs /\ (rd r = None \/ exists buf, rd r = Some buf /\ cb r buf = None)).
+Proof. intros R V rd cb reqs. split; [exact g_exec_results_retrieved_true | apply g_execute_read_reqs_none]. Qed.
+Print Assumptions C04_generated_pipeline_failure_raises.
+
+(* batch_read_requests as translated is the batching model of C16, and the run / the planner assembled from the generated
+   pieces are the run / the planner of the theorems above *)
+Theorem C04_generated_read_path_is_the_model :
+  (forall reqs, g_batch_read_requests reqs = batch_read reqs)
+  /\ (forall (obj : Type) (load : bytes -> option obj) batching gs s,
+        rd_ranges_wf (map g_leaf_of gs) ->
+        g_restore obj load batching gs s = rd_restore obj load false batching (map g_leaf_of gs) s)
+  /\ (forall limit es, option_map (map g_leaf_of) (g_read_plan limit es) = rd_read_plan limit es).
+Proof. split; [exact g_batch_read_requests_eq | split; [exact g_restore_eq | exact g_read_plan_eq]]. Qed.
+Print Assumptions C04_generated_read_path_is_the_model.
+
+(* the short-read behaviour of the model's storage read is that of the translated FSStoragePlugin.read *)
+Theorem C04_generated_storage_read : forall (s : rd_store) (p : Z) (rg : option (Z * Z)),
+  (forall a b, rg = Some (a, b) -> 0 <= a <= b) ->
+  rd_fs_read s p rg = match lookup s p with None => None | Some ob => Some (g_fs_read ob rg) end.
+Proof. intros s p rg H. symmetry. exact (g_storage_read_eq s p rg H). Qed.
+Print Assumptions C04_generated_storage_read.
+
+(* the two halves of the property on the generated run *)
+Theorem C04_generated_damaged_needed_range_raises :
+  forall (obj : Type) (load : bytes -> option obj) (save : obj -> bytes),
+    (forall o, load (save o) = Some o) ->
+    (forall o t, 0 <= t < blen (save o) -> load (firstn (Z.to_nat t) (save o)) = None) ->
+  forall (batching : bool) (s : rd_store) (gs : list greq) (f : Z) (d : rd_damage),
+    rd_plan_wf obj save s (map g_leaf_of gs) -> (forall t, d = RdTruncated t -> 0 <= t) ->
+    (exists g, In g gs /\ rd_leaf_damaged s f d (g_leaf_of g)) ->
+    g_restore obj load batching gs (rd_apply d f s) = None.
+Proof. exact g_damaged_raises. Qed.
+Print Assumptions C04_generated_damaged_needed_range_raises.
+
+Theorem C04_generated_undamaged_succeeds :
+  forall (obj : Type) (load : bytes -> option obj) (save : obj -> bytes),
+    (forall o, load (save o) = Some o) ->
+    (forall o t, 0 <= t < blen (save o) -> load (firstn (Z.to_nat t) (save o)) = None) ->
+  forall (batching : bool) (s : rd_store) (gs : list greq) (f : Z) (d : rd_damage),
+    rd_plan_wf obj save s (map g_leaf_of gs) -> (forall t, d = RdTruncated t -> 0 <= t) ->
+    (forall g, In g gs -> ~ rd_leaf_damaged s f d (g_leaf_of g)) ->
+    exists out, g_restore obj load batching gs (rd_apply d f s) = Some out /\
+      forall i g, nth_error gs i = Some g ->
+        exists v, rd_expected obj load s (g_leaf_of g) = Some v
+                  /\ (v <> RdBytes [] -> In (Z.of_nat i, v) out)
+                  /\ (forall v', In (Z.of_nat i, v') out -> v' = v).
+Proof. exact g_undamaged_succeeds. Qed.
+Print Assumptions C04_generated_undamaged_succeeds.
+
+Theorem C04_generated_truncation_beyond_needs_is_harmless :
+  forall (obj : Type) (load : bytes -> option obj) (batching : bool) (gs : list greq) (s : rd_store) (f t : Z),
+    rd_ranges_wf (map g_leaf_of gs) ->
+    (forall g, In g gs -> gq_path g = f -> exists lo hi, gq_range g = Some (lo, hi) /\ hi <= t) ->
+    g_restore obj load batching gs (rd_apply (RdTruncated t) f s) = g_restore obj load batching gs s.
+Proof. exact g_truncation_beyond_needs_harmless. Qed.
+Print Assumptions C04_generated_truncation_beyond_needs_is_harmless.
+
+(* the merged read request built by the translated batch_read_requests covers exactly [min lo, max hi) *)
+Theorem C04_generated_batched_read_extent : forall (gs : list greq) p lo hi subs,
+  In (RdBatched p lo hi subs) (g_plan true gs) ->
+  (exists g h, In g gs /\ gq_path g = p /\ gq_range g = Some (lo, h))
+  /\ (exists g a, In g gs /\ gq_path g = p /\ gq_range g = Some (a, hi))
+  /\ (forall g a b, In g gs -> gq_path g = p -> gq_range g = Some (a, b) -> lo <= a /\ b <= hi).
+Proof. exact g_batched_extent. Qed.
+Print Assumptions C04_generated_batched_read_extent.
+
+(* entries -> translated prepare_read functions -> translated run: restore (limit None, all entries) and read_object *)
+Theorem C04_generated_read_plan_wellformed :
+  forall (obj : Type) (save : obj -> bytes) (s : rd_store) (limit : option Z) (es : list rd_entry),
+    Forall (rd_tentry_wf obj save s) (rd_parts limit es) ->
+    exists gs, g_read_plan limit es = Some gs /\ Forall (rd_leaf_wf obj save s) (map g_leaf_of gs)
+               /\ forall f d, (forall tt, d = RdTruncated tt -> 0 <= tt) ->
+                    ((exists g, In g gs /\ rd_leaf_damaged s f d (g_leaf_of g))
+                     <-> (exists lt, In lt (rd_parts limit es) /\ rd_tentry_damaged s f d (snd lt))).
+Proof. exact g_read_plan_wf. Qed.
+Print Assumptions C04_generated_read_plan_wellformed.
+
+Theorem C04_generated_entries_damaged_raise :
+  forall (obj : Type) (load : bytes -> option obj) (save : obj -> bytes),
+    (forall o, load (save o) = Some o) ->
+    (forall o t, 0 <= t < blen (save o) -> load (firstn (Z.to_nat t) (save o)) = None) ->
+  forall (batching : bool) (s : rd_store) (limit : option Z) (es : list rd_entry) (gs : list greq) (f : Z) (d : rd_damage),
+    Forall (rd_tentry_wf obj save s) (rd_parts limit es) -> g_read_plan limit es = Some gs ->
+    rd_distinct_ranges (map g_leaf_of gs) -> (forall t, d = RdTruncated t -> 0 <= t) ->
+    (exists lt, In lt (rd_parts limit es) /\ rd_tentry_damaged s f d (snd lt)) ->
+    g_restore obj load batching gs (rd_apply d f s) = None.
+Proof. exact g_entries_damaged_raises. Qed.
+Print Assumptions C04_generated_entries_damaged_raise.
+
+Theorem C04_generated_entries_undamaged_succeed :
+  forall (obj : Type) (load : bytes -> option obj) (save : obj -> bytes),
+    (forall o, load (save o) = Some o) ->
+    (forall o t, 0 <= t < blen (save o) -> load (firstn (Z.to_nat t) (save o)) = None) ->
+  forall (batching : bool) (s : rd_store) (limit : option Z) (es : list rd_entry) (gs : list greq) (f : Z) (d : rd_damage),
+    Forall (rd_tentry_wf obj save s) (rd_parts limit es) -> g_read_plan limit es = Some gs ->
+    rd_distinct_ranges (map g_leaf_of gs) -> (forall t, d = RdTruncated t -> 0 <= t) ->
+    (forall lt, In lt (rd_parts limit es) -> ~ rd_tentry_damaged s f d (snd lt)) ->
+    exists out, g_restore obj load batching gs (rd_apply d f s) = Some out /\
+      forall i g, nth_error gs i = Some g ->
+        exists v, rd_expected obj load s (g_leaf_of g) = Some v
+                  /\ (v <> RdBytes [] -> In (Z.of_nat i, v) out)
+                  /\ (forall v', In (Z.of_nat i, v') out -> v' = v).
+Proof. exact g_entries_undamaged_succeed. Qed.
+Print Assumptions C04_generated_entries_undamaged_succeed.
+
+(* non-vacuity on the generated terms: a slab member read with an 8-byte limit (tiles), a chunked tensor with one chunk in
+   its own file and one in the slab, a sharded tensor, an object; store: slab 0 (44 bytes), chunk file 1 (24 bytes), shard
+   file 2 (8 bytes), archive 3.  The generated planner emits 10 requests; batched, the 5 slab ranges are merged into one
+   read of [4, 40) with sub-ranges relative to 4.  Undamaged: both runs return.  Truncating the slab at 39 (inside the last
+   tile of the chunk), truncating the whole-file chunk, the shard file or the archive by one byte, and deleting any file
+   raise; truncating the slab at 40 (only the foreign tail is cut) changes nothing. *)
+Definition C04_gen_entries : list rd_entry :=
+  [RdETensor (mkTentry 0 (Some (4, 28)) true 4 [2; 3] true);
+   RdEChunked [mkTentry 1 None true 4 [2; 3] true; mkTentry 0 (Some (28, 40)) true 4 [1; 3] true];
+   RdESharded [mkTentry 2 None true 2 [4] true]; RdEObject 3; RdEPrimitive].
+Definition C04_gen_store : rd_store :=
+  [(0, map Z.of_nat (seq 0 44)); (1, map Z.of_nat (seq 100 24)); (2, [1; 2; 3; 4; 5; 6; 7; 8]); (3, rd_toy_save [7; 7])].
+Definition C04_gen_run (batching : bool) (f : Z) (d : rd_damage) : option Z :=
+  match g_read_plan (Some 8) C04_gen_entries with
+  | None => None
+  | Some gs => Some (rd_verdict (g_restore bytes rd_toy_load batching gs (rd_apply d f C04_gen_store)))
+  end.
+Example C04_example_generated :
+  option_map (map g_leaf_of) (g_read_plan (Some 8) C04_gen_entries)
+  = Some [mkLeaf 0 (Some (4, 12)) (RdTensor 4 [2]); mkLeaf 0 (Some (12, 20)) (RdTensor 4 [2]); mkLeaf 0 (Some (20, 28)) (RdTensor 4 [2]);
+          mkLeaf 1 (Some (0, 8)) (RdTensor 4 [2]); mkLeaf 1 (Some (8, 16)) (RdTensor 4 [2]); mkLeaf 1 (Some (16, 24)) (RdTensor 4 [2]);
+          mkLeaf 0 (Some (28, 36)) (RdTensor 4 [2]); mkLeaf 0 (Some (36, 40)) (RdTensor 4 [1]);
+          mkLeaf 2 None (RdTensor 2 [4]); mkLeaf 3 None RdLoad]
+  /\ option_map (g_plan true) (g_read_plan (Some 8) C04_gen_entries)
+     = Some [RdSingle 2 None 8; RdSingle 3 None 9;
+             RdBatched 0 4 40 [((0, 8), 0); ((8, 16), 1); ((16, 24), 2); ((24, 32), 6); ((32, 36), 7)];
+             RdBatched 1 0 24 [((0, 8), 3); ((8, 16), 4); ((16, 24), 5)]]
+  /\ forallb (fun b => match C04_gen_run b (-1) RdDeleted with Some 1 => true | _ => false end) [true; false] = true
+  /\ forallb (fun b => match C04_gen_run b 0 (RdTruncated 40) with Some 1 => true | _ => false end) [true; false] = true
+  /\ forallb (fun b => forallb (fun fd : Z * rd_damage => match C04_gen_run b (fst fd) (snd fd) with Some 0 => true | _ => false end)
+                               [(0, RdTruncated 39); (0, RdTruncated 4); (0, RdTruncated 0); (1, RdTruncated 23); (2, RdTruncated 7);
+                                (3, RdTruncated 2); (0, RdDeleted); (1, RdDeleted); (2, RdDeleted); (3, RdDeleted)])
+             [true; false] = true.
+Proof. vm_compute. repeat split; reflexivity. Qed.
